@@ -18,11 +18,12 @@ import concurrent.futures as cf
 import hashlib
 import itertools
 import json
+import multiprocessing
 import os
 import random
 import time
 
-from ..common import LEAN, Check, Explore, Failure, lean_driver, parse_sexp, run, sexp
+from ..common import LEAN, Check, Explore, Failure, lean_build, lean_driver, parse_sexp, run, sexp
 from ..extract import gen as xgen
 from ..impl import c08_tables as T
 
@@ -32,11 +33,13 @@ WORKERS = max(2, min(15, (os.cpu_count() or 4) - 1))
 
 E = ['U', 0, 7]                       # ValueError(7)
 OPS = {
-    'gen': [['send', 'none'], ['send', 5], ['throw', E], ['throw', 'GE'], ['throw', ['SI', 3]], 'close'],
-    'coro': [['send', 'none'], ['send', 5], ['throw', E], ['throw', 'GE'], ['throw', ['SI', 3]], 'close'],
-    'agen': [['send', 'none'], ['send', 5], ['throw', E], ['throw', 'GE'], ['throw', 'SAI'], ['throw', ['SI', 3]], 'close'],
+    'gen': [['send', 'none'], ['send', 0], ['throw', E], ['throw', 'GE'], ['throw', ['SI', 3]], 'close'],
+    'coro': [['send', 'none'], ['send', 0], ['throw', E], ['throw', 'GE'], ['throw', ['SI', 3]], 'close'],
+    'agen': [['send', 'none'], ['send', 0], ['throw', E], ['throw', 'GE'], ['throw', 'SAI'], ['throw', ['SI', 3]], 'close'],
 }
 PRIMARY = {'gen': 'ok', 'coro': 'int', 'agen': 'ok'}
+SPEC_NOTE = {'plain': '', 'chk': ' (specification: its returned value goes through the return check)',
+             'viol': ' (specification: the produced object fails the return hint -> violation when started)'}
 KNOWN_KEYS = {
     'gen': 'C08:gen:explicit-throw(GeneratorExit):body-swallows-it-and-returns:StopIteration->GeneratorExit',
     'coro': 'C08:coro:explicit-throw(GeneratorExit):body-swallows-it-and-returns:StopIteration->GeneratorExit',
@@ -133,7 +136,9 @@ def native_driver():
         return _NATIVE['exe']
     _NATIVE['exe'] = None
     try:
-        lean_driver([sexp(['c08', 'kind', 'false', 'false', 'false'])], 'C08')      # lake build of the driver (emits the .c files)
+        ok, log = lean_build(['BearVerif.Driver.C08', 'BearVerif.Core.Loop'])           # emits the .c files
+        if not ok:
+            raise RuntimeError(log[-500:])
         ir, out = LEAN / '.lake/build/ir', LEAN / '.lake/build/c08bin'
         out.mkdir(parents=True, exist_ok=True)
         mods = ['BearVerif/Driver/C08', 'BearVerif/Core/Gen', 'BearVerif/Extracted/Gen', 'BearVerif/Core/Sexp', 'BearVerif/Core/Loop']
@@ -167,7 +172,16 @@ def native_driver():
     return _NATIVE['exe']
 
 
+LAKE_EXE = 'c08driver'      # optional `[[lean_exe]] name = "c08driver", root = "MainC08"` of lean/lakefile.toml (shared file)
+
+
 def drive(lines):
+    """request lines -> response lines: the lake-built native driver when the lakefile declares it, else the same driver
+    compiled here with leanc, else interpreted"""
+    import inspect
+    if f'name = "{LAKE_EXE}"' in (LEAN / 'lakefile.toml').read_text() and 'exe' in inspect.signature(lean_driver).parameters:
+        _NATIVE.setdefault('exe', f'lake lean_exe {LAKE_EXE}')
+        return lean_driver(lines, 'C08', exe=LAKE_EXE)
     exe = native_driver()
     if exe is None:
         return lean_driver(lines, 'C08')
@@ -185,7 +199,7 @@ def model_automata(cases):
     if not lines:
         return []
     uniq = list(dict.fromkeys(lines))
-    native_driver()
+    drive([sexp(['c08', 'kind', 'false', 'false', 'false'])])       # builds whichever driver is used, once
     nchunk = max(1, min(WORKERS, len(uniq) // 40 or 1))
     size = (len(uniq) + nchunk - 1) // nchunk
     chunks = [uniq[i:i + size] for i in range(0, len(uniq), size)]
@@ -342,7 +356,7 @@ def make_failure(kind, variant, table, oseq) -> Failure:
               and spec[:i] == dec[:i] and spec[i + 1:] == dec[i + 1:])
     key = KNOWN_KEYS[kind] if family else f'C08:{kind}:{ops_s}:{reaction}:{what_differs}'
     what = (f'{kind} body {table_str(table)} under [{ops_s}] (variant {variant}): operation #{i} {op_str(kind, oseq[i])} gives '
-            f'{spec[i]} on the undecorated object{" (specification: returns checked)" if T.spec_mode(kind, variant) != "plain" else ""}'
+            f'{spec[i]} on the undecorated object{SPEC_NOTE[T.spec_mode(kind, variant)]}'
             f' but {dec[i]} on the @beartype-decorated one')
     return Failure(key=key, what=what, replay={
         'kind': kind, 'variant': variant, 'table': table, 'ops': oseq, 'ops_readable': [op_str(kind, o) for o in oseq],
@@ -443,8 +457,10 @@ def plan(tier: str, seed: int, scale: float = 1.0):
         else:
             for t in one:
                 cases.append((kind, PRIMARY[kind], t, 5, None))
-            for t in exhaustive_tables(kind, 2, 'full'):
-                cases.append((kind, PRIMARY[kind], t, 4, None))
+            two = list(exhaustive_tables(kind, 2, 'full'))
+            deep = set(rng.sample(range(len(two)), len(two) // 5))
+            for i, t in enumerate(two):          # every 2-yield-point table: all sequences of length 3, a fifth of them of length 4
+                cases.append((kind, PRIMARY[kind], t, 4 if i in deep else 3, None if i in deep else _long_seqs(rng, kind, 8)))
             for t in exhaustive_tables(kind, 3, 'small'):
                 for v in variants:
                     cases.append((kind, v, t, 4, None))
@@ -464,7 +480,7 @@ def _long_seqs(rng, kind, n):
 
 def explore(ck: Check, tier: str, seed: int, scale: float = 1.0) -> Explore:
     ex = Explore(rule='case = (kind, hint variant, transition table); every case is run on ALL operation sequences of the stated '
-                      'length over the kind\'s operation alphabet (next/send(5)/throw(ValueError)/throw(GeneratorExit)/'
+                      'length over the kind\'s operation alphabet (next/send(0)/throw(ValueError)/throw(GeneratorExit)/'
                       'throw(StopIteration)[/throw(StopAsyncIteration)]/close, resp. a-forms) plus random longer ones; '
                       'non-trivial = table in the property\'s scope (no yield on GeneratorExit) with a first yield and >= 1 '
                       'yield point that reacts to a throw otherwise than by silently propagating (catch-and-continue, '
@@ -479,7 +495,8 @@ def explore(ck: Check, tier: str, seed: int, scale: float = 1.0) -> Explore:
     # big jobs first, so that the pool drains evenly
     order = sorted(range(len(jobs)), key=lambda i: -(len(jobs[i]['ops']) ** jobs[i]['length']))
     results = [None] * len(jobs)
-    with cf.ProcessPoolExecutor(max_workers=WORKERS) as pool:
+    # fresh interpreters (spawn): forked workers would inherit — and, through reference counts, copy — this process's heap
+    with cf.ProcessPoolExecutor(max_workers=WORKERS, mp_context=multiprocessing.get_context('spawn')) as pool:
         for i, r in zip(order, pool.map(T.check_table, [jobs[i] for i in order], chunksize=8)):
             results[i] = r
     seen, nontriv = set(), set()
@@ -520,7 +537,7 @@ def explore(ck: Check, tier: str, seed: int, scale: float = 1.0) -> Explore:
         'oracle_failures_matching_the_model_counterexample_family': predicted,
         'failure_signatures': [list(map(str, s)) for s in groups],
         'operation_alphabets': {k: [op_str(k, o) for o in v] for k, v in OPS.items()},
-        'model_driver': 'native (leanc-compiled MainC08)' if _NATIVE.get('exe') else 'interpreted (lean --run): ' + _NATIVE.get('why', ''),
+        'model_driver': f'native ({_NATIVE["exe"].split("/")[-1]})' if _NATIVE.get('exe') else 'interpreted (lean --run): ' + _NATIVE.get('why', ''),
         'model_driver_seconds': round(t_model, 1), 'exploration_seconds': round(time.time() - t0, 1)})
     ex.samples = [{'kind': k, 'variant': v, 'table': table_str(t), 'sequence_length': L} for k, v, t, L, _ in
                   (cases[0], cases[len(cases) // 2], cases[-1])]
@@ -543,8 +560,8 @@ def replay(data: dict) -> int:
     spec, dec = T.oracle_once(kind, variant, table, oseq)
     print(f'{kind} body: {table_str(table)}   (hint variant {variant})')
     print('operations:  ', [op_str(kind, o) for o in oseq])
-    print('undecorated: ', spec)
-    print('decorated:   ', dec)
+    print('expected (undecorated object' + SPEC_NOTE[T.spec_mode(kind, variant)].replace(' (specification:', ';').rstrip(')') + '):', spec)
+    print('actual   (decorated object):', dec)
     try:
         aut = model_automata([(kind, variant, table)])[0]
         idx = [OPS[kind].index(o) for o in oseq]
@@ -556,7 +573,7 @@ def replay(data: dict) -> int:
     if i is None:
         print('replay: decorated and undecorated objects agree on this sequence (not reproduced)')
         return 0
-    print(f'replay: operation #{i} {op_str(kind, oseq[i])}: undecorated {spec[i]} vs decorated {dec[i]}')
+    print(f'replay: operation #{i} {op_str(kind, oseq[i])}: expected {spec[i]}, the decorated object gives {dec[i]}')
     return 1
 
 
